@@ -71,7 +71,10 @@ IdsIn(tb, ts) == [k \in 1..Len(ts) |-> IdIn(tb, ts[k])]
 
 \* argument encoding in events: 0 absent, -(n+1) pool atom n, i > 0 value id
 Enc(t) == IF t = NoneV THEN 0 ELSE IF t[1] = "atom" THEN 0 - (t[2] + 1) ELSE IdIn(tbl, t)
-Dec(n) == IF n = 0 THEN NoneV ELSE IF n < 0 THEN Atom((0 - n) - 1) ELSE tbl[n]
+\* (an id the trace never introduced decodes to a value nothing else equals: the event is then rejected
+\* by comparison, not by an evaluation error)
+Dec(n) == IF n = 0 THEN NoneV ELSE IF n < 0 THEN Atom((0 - n) - 1)
+          ELSE IF n <= Len(tbl) THEN tbl[n] ELSE <<"unknown-id", n>>
 EncAll(ts) == [k \in 1..Len(ts) |-> Enc(ts[k])]
 
 Observe(ev, outs) ==
